@@ -143,6 +143,10 @@ def scenarios(tier):
     for n in range(1, max_len + 1):
         for seq in itertools.product(ops, repeat=n):
             out.append({'name': 'history[' + ','.join(seq) + ']', 'fn': 'scn_history', 'kwargs': {'seq': seq}})
+    for vi in (13, 7, 10):       # shoc standard, cf2d, shoc simple
+        for how in ('ShocStandard', 'ArakawaC'):
+            out.append({'name': f'detection does not depend on conventions constructed by hand before[{VARIANTS[vi][0]}, {how}(other dataset, coordinate_names=...)]',
+                        'fn': 'scn_constructed_before', 'kwargs': {'vi': vi, 'how': how}})
     out.append({'name': 'write-once: stores to State.convention (AST scan)', 'fn': 'scn_write_once', 'kwargs': {}})
     out.append({'name': 'determinism: no hash/id/time/random in detection code (AST scan)', 'fn': 'scn_taint', 'kwargs': {}})
     out.append({'name': 'accessor refuses undetectable dataset', 'fn': 'scn_refuse', 'kwargs': {}})
@@ -211,6 +215,42 @@ def scn_guess(c, vi, order):
     c.check(f'the matching convention with the highest specificity handles the dataset: {want}', got == want, note=f'got {got}')
     r2 = expect_ok(c, 'second detection returns', lambda: call(it, g, ds))
     c.check('detection is repeatable on the same dataset', r2 is r)
+
+
+def scn_constructed_before(c, vi, how):
+    """Which convention handles a dataset is a function of the dataset alone: a convention object constructed by hand on ANOTHER dataset, with
+    its own options (coordinate names other than the defaults), between two detections leaves every check_dataset answer and the winner as
+    they were, and the class-level defaults of the entry-point classes are not modified."""
+    it = new_interp()
+    ds, expected = _dataset(c, vi)
+    c.entry_points = _entry_points(it)
+    g = fn(it, 'emsarray.conventions._registry', 'get_dataset_convention')
+    Kind = cls(it, 'emsarray.conventions.arakawa_c', 'ArakawaCGridKind')
+    kinds = {k: it.getattr(Kind, k) for k in ('face', 'left', 'back', 'node')}
+    SS = cls(it, *CLASSES['ShocStandard'])
+    defaults_before = dict(it.getattr(SS, 'coordinate_names').items())
+    before = {cname: _spec_value(method(it, cls(it, mod, nm), 'check_dataset', ds)) for cname, (mod, nm) in CLASSES.items()}
+    # another dataset: an Arakawa C grid whose node coordinates have other names
+    other = inputs.shoc_standard(c)
+    for old_, new_ in (('x_grid', 'x_node'), ('y_grid', 'y_node')):
+        v = other._vars.pop(old_)
+        was_coord = old_ in other._coord_names
+        other._coord_names.discard(old_)
+        add_var(other, new_, v.dims, v.arr, dict(v.attrs), coord=was_coord)
+    names = {kinds['face']: ('y_centre', 'x_centre'), kinds['left']: ('y_left', 'x_left'), kinds['back']: ('y_back', 'x_back'), kinds['node']: ('y_node', 'x_node')}
+    klass = SS if how == 'ShocStandard' else cls(it, 'emsarray.conventions.arakawa_c', 'ArakawaC')
+    conv = expect_ok(c, f'{how}(other dataset, coordinate_names=...) constructs', lambda: it.instantiate(klass, [other], {'coordinate_names': names}))
+    own = it.getattr(conv, 'coordinate_names')
+    c.check('the constructed object uses the names it was given', own[kinds['node']] == ('y_node', 'x_node'))
+    c.check('the class-level default names of ShocStandard are not modified by constructing an object',
+            dict(it.getattr(SS, 'coordinate_names').items()) == defaults_before)
+    for cname, (mod, nm) in CLASSES.items():
+        r = expect_ok(c, f'{cname}.check_dataset returns afterwards', lambda: method(it, cls(it, mod, nm), 'check_dataset', ds))
+        c.check(f'{cname}.check_dataset gives the same answer as before', _spec_value(r) == before[cname] and before[cname] == expected.get(cname),
+                note=f'before {before[cname]}, after {r!r}')
+    r = expect_ok(c, 'get_dataset_convention returns afterwards', lambda: call(it, g, ds))
+    want = _expected_winner(expected, 'declared')
+    c.check(f'the dataset is still handled by {want}', (r.name if isinstance(r, ClassInfo) else None) == want)
 
 
 def scn_register_known(c, vi, name):
